@@ -184,13 +184,22 @@ func evalPath(node *jparse.PathNode, data reflect.Value, env *environment) (refl
 		return undefined, nil
 	}
 
-	var isVar bool
-	switch step0 := node.Steps[0].(type) {
-	case (*jparse.VariableNode):
-		isVar = true
-	case (*jparse.PredicateNode):
-		_, isVar = step0.Expr.(*jparse.VariableNode)
+	// A path is anchored when it starts with a variable,
+	// possibly filtered by predicates or sorted by an
+	// order-by clause (e.g. $[0].x, $^(k).x).
+	step0 := node.Steps[0]
+	for {
+		if p, ok := step0.(*jparse.PredicateNode); ok {
+			step0 = p.Expr
+			continue
+		}
+		if s, ok := step0.(*jparse.SortNode); ok {
+			step0 = s.Expr
+			continue
+		}
+		break
 	}
+	_, isVar := step0.(*jparse.VariableNode)
 
 	output := data
 	if isVar || !jtypes.IsArray(data) {
